@@ -1,1 +1,1039 @@
-import AnyioModel.Sync.Lock
+/-
+C08  Checkpoint discipline: blocking primitives always check cancellation and yield.
+
+Property theorems only.  For every cell of the operation × state-class matrix of
+`harness/c08.py` whose operation has a Lean model, a theorem about that model that holds for
+**all** states of the cell's state class (most of them: for all states of the model, reachable
+or not; reachability is used only where it is needed, for `*_parked_undisturbed`):
+
+ (a) *check before effect* -- `C08_<m>_check_before_effect`, `C08_<m>_parked_only_exit`,
+     `C08_<m>_cancel_exit`, `C08_<m>_parked_undisturbed`: entered with the caller's scope already
+     cancelled (`pre = true`), the call's first segment suspends (does not return) and changes
+     nothing observable (`SameBut`/`SameObs` of `AnyioModel.Sync.C08Lemmas`,
+     `AnyioModel.Stream.C08Memory`: every field of the primitive and every other task; only the
+     caller's own program counter moves); the task is parked in `checkpoint_if_cancelled`; while
+     parked, the only enabled events of that task are the spinning `step`, the delivery `mc`,
+     and -- after `mc` -- the `step` that raises `cancelled`, each again without observable
+     change; no event of another task moves a parked task.
+ (b) *yields before returning* -- `C08_<m>_yields_first`, `C08_<m>_returns_in_later_step`:
+     without `pre`, in the non-blocking state class, the first segment ends with `susp` and the
+     normal return is produced by a later `step t`.
+ Exemptions proved as such: `C08_<m>_fast_acquire_exempt` (+ `..._check_still_first`) and
+ `C08_<m>_nowait_synchronous`.
+
+Models: `Sync/Lock`, `Sync/Semaphore`, `Sync/Limiter`, `Sync/Event`, `Sync/Condition`,
+`Stream/Memory`, `Cache/Lru`, `Kernel/Step`, and `Iter/Checkpoints` for the itertools part.
+Deviations of a model from the scheme are stated at the head of its section.  Cells without a
+Lean model (`to_thread.run_sync`, `Future.wait`, `await Future`, `functools.reduce`, and the
+per-function itertools cells) are covered by the probe matrix only.
+-/
+import AnyioModel.Sync.C08Lemmas
+import AnyioModel.Stream.C08Memory
+import AnyioModel.Cache.Lru
+import AnyioModel.Kernel.C08Kernel
+import AnyioModel.Iter.Checkpoints
+
+namespace AnyioModel.Props.C08
+open AnyioModel AnyioModel.Sync AnyioModel.Stream AnyioModel.Cache AnyioModel.Props.C08Aux
+
+/-! ## Lock.acquire  (cells `Lock.acquire[free,fast=0]`, `Lock.acquire[free,fast=1]`) -/
+
+/-- (a) check before effect, every free lock (fast_acquire on or off), every idle task: entered in
+a cancelled scope, the first segment suspends (does not return), takes nothing -- owner, waiters,
+`holds`, `fast` and every other task are as before -- and parks `t` in `preSpin`. -/
+theorem C08_lock_check_before_effect (s : Lock.State) (t : Nat) (hidle : s.pc t = .idle)
+    (hfree : s.owner = none ∧ s.waiters = []) :
+    ∃ s1, Lock.step s (.acquire t true) = some (s1, .susp) ∧ s1.pc t = .preSpin ∧
+      Lock.SameBut t s s1 := by
+  refine ⟨{ s with pc := upd s.pc t .preSpin }, ?_, ?_, ?_⟩
+  · simp [Lock.step, hidle, hfree]
+  · simp
+  · simp [Lock.SameBut]; intro u hu; simp [upd, hu]
+
+/-- (a) the only way out: while parked (`preSpin`/`preSpinMC`), whatever event task `t` itself
+executes leaves owner/waiters/holds/other tasks unchanged and is one of: `step t` spinning
+(`susp`, identical state), `mc t` (`_must_cancel` delivered), or `step t` after `mc t`, which
+raises the cancellation exception and leaves the operation.  In particular no event of `t`
+returns normally, and `acquire`/`acquire_nowait`/`release`/`fc` by `t` are not enabled. -/
+theorem C08_lock_parked_only_exit (s : Lock.State) (t : Nat) (hp : Lock.Parked t s)
+    (e : Lock.Ev) (he : Lock.actor e = t) (s' : Lock.State) (o : Lock.Out)
+    (hs : Lock.step s e = some (s', o)) :
+    Lock.SameBut t s s' ∧
+    ((e = .step t ∧ s.pc t = .preSpin ∧ o = .susp ∧ s' = s) ∨
+     (e = .mc t ∧ s.pc t = .preSpin ∧ o = .env ∧ s'.pc t = .preSpinMC) ∨
+     (e = .step t ∧ s.pc t = .preSpinMC ∧ o = .cancelled ∧ s'.pc t = .idle)) := by
+  rcases hp with hp | hp <;> cases e <;> simp [Lock.actor] at he <;> subst he <;>
+    simp [Lock.step, hp] at hs <;> (try obtain ⟨rfl, rfl⟩ := hs) <;> simp [Lock.SameBut, hp] <;>
+    (intro u hu; simp [upd, hu])
+
+/-- (a) and the exit exists: after `mc t` the wake-up segment raises `cancelled`. -/
+theorem C08_lock_cancel_exit (s : Lock.State) (t : Nat) (hp : s.pc t = .preSpin) :
+    ∃ s1 s2, Lock.step s (.mc t) = some (s1, .env) ∧ Lock.step s1 (.step t) = some (s2, .cancelled) ∧
+      s2.pc t = .idle ∧ Lock.SameBut t s s2 := by
+  refine ⟨{ s with pc := upd s.pc t .preSpinMC }, { s with pc := upd (upd s.pc t .preSpinMC) t .idle }, ?_, ?_, ?_, ?_⟩
+  · simp [Lock.step, hp]
+  · simp [Lock.step]
+  · simp
+  · simp [Lock.SameBut]; intro u hu; simp [upd, hu]
+
+/-- (a) in every reachable state no event of *another* task moves a parked task: the wake-up
+segment of `t` after `mc t` is the only exit. -/
+theorem C08_lock_parked_undisturbed {s s' : Lock.State} (h : Lock.Reach s) {t : Nat}
+    (hp : Lock.Parked t s) {e : Lock.Ev} {o : Lock.Out} (he : Lock.actor e ≠ t)
+    (hs : Lock.step s e = some (s', o)) : s'.pc t = s.pc t :=
+  Lock.parked_undisturbed (Lock.inv_of_reach h) hp he hs
+
+/-- (b) yields before returning, `fast_acquire = False`, every free lock: the first segment takes
+the lock and suspends in `cancel_shielded_checkpoint` (`fastYield`); `acquire` has not returned
+(`holds t` unchanged). -/
+theorem C08_lock_yields_first (s : Lock.State) (t : Nat) (hidle : s.pc t = .idle)
+    (hfree : s.owner = none ∧ s.waiters = []) (hfast : s.fast = false) :
+    ∃ s1, Lock.step s (.acquire t false) = some (s1, .susp) ∧ s1.pc t = .fastYield ∧
+      s1.owner = some t ∧ s1.holds = s.holds := by
+  refine ⟨{ s with owner := some t, pc := upd s.pc t .fastYield }, ?_, ?_, rfl, rfl⟩
+  · simp [Lock.step, hidle, hfree, hfast]
+  · simp
+
+/-- (b) ... and it returns only in a later segment: in `fastYield`/`fastYieldMC` the events of `t`
+are `step t` (returns, or raises after `mc`) and `mc t`; the return comes from `step t`. -/
+theorem C08_lock_returns_in_later_step (s : Lock.State) (t : Nat)
+    (hp : s.pc t = .fastYield ∨ s.pc t = .fastYieldMC)
+    (e : Lock.Ev) (he : Lock.actor e = t) (s' : Lock.State) (o : Lock.Out)
+    (hs : Lock.step s e = some (s', o)) :
+    (e = .step t ∧ s.pc t = .fastYield ∧ o = .ret ∧ s'.holds t = true ∧ s'.owner = s.owner) ∨
+    (e = .mc t ∧ s.pc t = .fastYield ∧ o = .env) ∨
+    (e = .step t ∧ s.pc t = .fastYieldMC ∧ o = .cancelled) := by
+  rcases hp with hp | hp <;> cases e <;> simp [Lock.actor] at he <;> subst he <;>
+    simp [Lock.step, hp] at hs <;> (try obtain ⟨rfl, rfl⟩ := hs) <;> simp [hp]
+
+/-- exemption `fast_acquire = True`: on a free lock, not cancelled, `acquire` returns at once. -/
+theorem C08_lock_fast_acquire_exempt (s : Lock.State) (t : Nat) (hidle : s.pc t = .idle)
+    (hfree : s.owner = none ∧ s.waiters = []) (hfast : s.fast = true) :
+    ∃ s1, Lock.step s (.acquire t false) = some (s1, .ret) ∧ s1.owner = some t ∧
+      s1.holds t = true ∧ s1.pc t = .idle := by
+  refine ⟨{ s with owner := some t, holds := upd s.holds t true }, ?_, rfl, ?_, hidle⟩
+  · simp [Lock.step, hidle, hfree, hfast]
+  · simp
+
+/-- ... and with `fast_acquire = True` the cancellation check still comes first. -/
+theorem C08_lock_fast_acquire_check_still_first (s : Lock.State) (t : Nat)
+    (hidle : s.pc t = .idle) (hfree : s.owner = none ∧ s.waiters = []) (_hfast : s.fast = true) :
+    ∃ s1, Lock.step s (.acquire t true) = some (s1, .susp) ∧ s1.pc t = .preSpin ∧
+      Lock.SameBut t s s1 :=
+  C08_lock_check_before_effect s t hidle hfree
+
+/-- exemption `acquire_nowait`/`release`: synchronous in every state (never `susp`, the task stays
+outside any operation). -/
+theorem C08_lock_nowait_synchronous (s s' : Lock.State) (t : Nat) (o : Lock.Out) (e : Lock.Ev)
+    (he : e = .acquireNowait t ∨ e = .release t) (hs : Lock.step s e = some (s', o)) :
+    o ≠ .susp ∧ s.pc t = .idle := by
+  rcases he with rfl | rfl <;> simp only [Lock.step] at hs <;> repeat' split at hs
+  all_goals first | contradiction | (cases hs; simp_all)
+
+/-! ## Semaphore.acquire  (cells `Semaphore.acquire[value>0,fast=0/1]`) -/
+
+/-- (a) check before effect, every semaphore with a free permit and no queue, fast or not:
+entered in a cancelled scope the first segment suspends and changes nothing (value, max,
+waiters and all ghost counters as before); `t` is parked in `preSpin`. -/
+theorem C08_sem_check_before_effect (s : Semaphore.State) (t : Nat) (hidle : s.pc t = .idle)
+    (hfree : 0 < s.value ∧ s.waiters = []) :
+    ∃ s1, Semaphore.step s (.acquire t true) = some (s1, .susp) ∧ s1.pc t = .preSpin ∧
+      Sem.SameBut t s s1 := by
+  refine ⟨{ s with pc := upd s.pc t .preSpin }, ?_, ?_, ?_⟩
+  · simp [Semaphore.step, hidle, hfree]
+  · simp
+  · simp [Sem.SameBut]; intro u hu; simp [upd, hu]
+
+/-- (a) the only way out of the parked state, as for the Lock. -/
+theorem C08_sem_parked_only_exit (s : Semaphore.State) (t : Nat) (hp : Sem.Parked t s)
+    (e : Semaphore.Ev) (he : Sem.actor e = t) (s' : Semaphore.State) (o : Semaphore.Out)
+    (hs : Semaphore.step s e = some (s', o)) :
+    Sem.SameBut t s s' ∧
+    ((e = .step t ∧ s.pc t = .preSpin ∧ o = .susp ∧ s' = s) ∨
+     (e = .mc t ∧ s.pc t = .preSpin ∧ o = .env ∧ s'.pc t = .preSpinMC) ∨
+     (e = .step t ∧ s.pc t = .preSpinMC ∧ o = .cancelled ∧ s'.pc t = .idle)) := by
+  rcases hp with hp | hp <;> cases e <;> simp [Sem.actor] at he <;> subst he <;>
+    simp [Semaphore.step, hp] at hs <;> (try obtain ⟨rfl, rfl⟩ := hs) <;>
+    simp [Sem.SameBut, hp] <;> (intro u hu; simp [upd, hu])
+
+theorem C08_sem_cancel_exit (s : Semaphore.State) (t : Nat) (hp : s.pc t = .preSpin) :
+    ∃ s1 s2, Semaphore.step s (.mc t) = some (s1, .env) ∧
+      Semaphore.step s1 (.step t) = some (s2, .cancelled) ∧ s2.pc t = .idle ∧
+      Sem.SameBut t s s2 := by
+  refine ⟨{ s with pc := upd s.pc t .preSpinMC },
+    { s with pc := upd (upd s.pc t .preSpinMC) t .idle }, ?_, ?_, ?_, ?_⟩
+  · simp [Semaphore.step, hp]
+  · simp [Semaphore.step]
+  · simp
+  · simp [Sem.SameBut]; intro u hu; simp [upd, hu]
+
+theorem C08_sem_parked_undisturbed {s s' : Semaphore.State} (h : Semaphore.Reach s) {t : Nat}
+    (hp : Sem.Parked t s) {e : Semaphore.Ev} {o : Semaphore.Out} (he : Sem.actor e ≠ t)
+    (hs : Semaphore.step s e = some (s', o)) : s'.pc t = s.pc t :=
+  Sem.parked_undisturbed (Sem.inv_of_reach h) hp he hs
+
+/-- (b) `fast_acquire = False`: the first segment takes a permit and suspends in
+`cancel_shielded_checkpoint`; the call has not returned (`holders` unchanged). -/
+theorem C08_sem_yields_first (s : Semaphore.State) (t : Nat) (hidle : s.pc t = .idle)
+    (hfree : 0 < s.value ∧ s.waiters = []) (hfast : s.fast = false) :
+    ∃ s1, Semaphore.step s (.acquire t false) = some (s1, .susp) ∧ s1.pc t = .fastYield ∧
+      s1.value = s.value - 1 ∧ s1.holders = s.holders := by
+  refine ⟨{ s with value := s.value - 1, pc := upd s.pc t .fastYield, infl := t :: s.infl },
+    ?_, ?_, rfl, rfl⟩
+  · simp [Semaphore.step, hidle, hfree, hfast]
+  · simp
+
+/-- (b) it returns only in a later `step t`. -/
+theorem C08_sem_returns_in_later_step (s : Semaphore.State) (t : Nat)
+    (hp : s.pc t = .fastYield ∨ s.pc t = .fastYieldMC)
+    (e : Semaphore.Ev) (he : Sem.actor e = t) (s' : Semaphore.State) (o : Semaphore.Out)
+    (hs : Semaphore.step s e = some (s', o)) :
+    (e = .step t ∧ s.pc t = .fastYield ∧ o = .ret ∧ s'.holders = t :: s.holders ∧
+        s'.value = s.value) ∨
+    (e = .mc t ∧ s.pc t = .fastYield ∧ o = .env) ∨
+    (e = .step t ∧ s.pc t = .fastYieldMC ∧ (o = .cancelled ∨ o = .valueError)) := by
+  rcases hp with hp | hp <;> cases e <;> simp [Sem.actor] at he <;>
+    (have he' := he.symm; subst he') <;> simp [Semaphore.step, hp] at hs
+  · obtain ⟨rfl, rfl⟩ := hs; simp [hp]
+  · obtain ⟨rfl, rfl⟩ := hs; simp [hp]
+  · simp [hp]
+    have : o = (Semaphore.giveBack s t).2 := by rw [hs]
+    rw [this]; unfold Semaphore.giveBack; simp only; split <;> simp
+
+theorem C08_sem_fast_acquire_exempt (s : Semaphore.State) (t : Nat) (hidle : s.pc t = .idle)
+    (hfree : 0 < s.value ∧ s.waiters = []) (hfast : s.fast = true) :
+    ∃ s1, Semaphore.step s (.acquire t false) = some (s1, .ret) ∧ s1.value = s.value - 1 ∧
+      s1.holders = t :: s.holders ∧ s1.pc t = .idle := by
+  refine ⟨{ s with value := s.value - 1, holders := t :: s.holders }, ?_, rfl, rfl, hidle⟩
+  simp [Semaphore.step, hidle, hfree, hfast]
+
+theorem C08_sem_fast_acquire_check_still_first (s : Semaphore.State) (t : Nat)
+    (hidle : s.pc t = .idle) (hfree : 0 < s.value ∧ s.waiters = []) (_hfast : s.fast = true) :
+    ∃ s1, Semaphore.step s (.acquire t true) = some (s1, .susp) ∧ s1.pc t = .preSpin ∧
+      Sem.SameBut t s s1 :=
+  C08_sem_check_before_effect s t hidle hfree
+
+theorem C08_sem_nowait_synchronous (s s' : Semaphore.State) (t : Nat) (o : Semaphore.Out)
+    (e : Semaphore.Ev) (he : e = .acquireNowait t ∨ e = .release t)
+    (hs : Semaphore.step s e = some (s', o)) : o ≠ .susp ∧ s.pc t = .idle := by
+  rcases he with rfl | rfl <;> simp only [Semaphore.step] at hs <;> repeat' split at hs
+  all_goals first | contradiction | (cases hs; simp_all)
+
+/-! ## CapacityLimiter.acquire / acquire_on_behalf_of
+(cells `CapacityLimiter.acquire[free]`, `CapacityLimiter.acquire_on_behalf_of[free]`;
+`acquire t pre` is by definition `acquireOnBehalf t t pre`) -/
+
+/-- (a) check before effect.  `checkpoint_if_cancelled()` is the *first statement* of
+`acquire_on_behalf_of`, so this holds in **every** state (free, full, queue non-empty, borrower
+already registered), not only in the free class: nothing changes but `t`'s program counter and
+its local variable `beh t` (the borrower argument). -/
+theorem C08_limiter_check_before_effect (s : Limiter.State) (t b : Nat) (hidle : s.pc t = .idle) :
+    ∃ s1, Limiter.step s (.acquireOnBehalf t b true) = some (s1, .susp) ∧ s1.pc t = .preSpin ∧
+      Lim.SameBut t s s1 ∧ Limiter.step s (.acquire t true) = Limiter.step s (.acquireOnBehalf t t true) := by
+  refine ⟨{ s with pc := upd s.pc t .preSpin, beh := upd s.beh t b }, ?_, ?_, ?_, rfl⟩
+  · simp [Limiter.step, Limiter.acq, hidle]
+  · simp
+  · simp [Lim.SameBut]; intro u hu; simp [upd, hu]
+
+theorem C08_limiter_parked_only_exit (s : Limiter.State) (t : Nat) (hp : Lim.Parked t s)
+    (e : Limiter.Ev) (he : Lim.actor e = some t) (s' : Limiter.State) (o : Limiter.Out)
+    (hs : Limiter.step s e = some (s', o)) :
+    Lim.SameBut t s s' ∧
+    ((e = .step t ∧ s.pc t = .preSpin ∧ o = .susp ∧ s' = s) ∨
+     (e = .mc t ∧ s.pc t = .preSpin ∧ o = .env ∧ s'.pc t = .preSpinMC) ∨
+     (e = .step t ∧ s.pc t = .preSpinMC ∧ o = .cancelled ∧ s'.pc t = .idle)) := by
+  rcases hp with hp | hp <;> cases e <;> simp [Lim.actor] at he <;> subst he <;>
+    simp [Limiter.step, Limiter.acq, Limiter.acqNowait, Limiter.rel, hp] at hs <;>
+    (try obtain ⟨rfl, rfl⟩ := hs) <;>
+    simp [Lim.SameBut, hp] <;> (intro u hu; simp [upd, hu])
+
+theorem C08_limiter_cancel_exit (s : Limiter.State) (t : Nat) (hp : s.pc t = .preSpin) :
+    ∃ s1 s2, Limiter.step s (.mc t) = some (s1, .env) ∧
+      Limiter.step s1 (.step t) = some (s2, .cancelled) ∧ s2.pc t = .idle ∧
+      Lim.SameBut t s s2 := by
+  refine ⟨{ s with pc := upd s.pc t .preSpinMC },
+    { s with pc := upd (upd s.pc t .preSpinMC) t .idle }, ?_, ?_, ?_, ?_⟩
+  · simp [Limiter.step, hp]
+  · simp [Limiter.step]
+  · simp
+  · simp [Lim.SameBut]; intro u hu; simp [upd, hu]
+
+/-- holds in every state of the model (no reachability needed): the limiter's wake-ups only
+touch `waiting`/`waitFC` tasks. -/
+theorem C08_limiter_parked_undisturbed {s s' : Limiter.State} {t : Nat}
+    (hp : Lim.Parked t s) {e : Limiter.Ev} {o : Limiter.Out} (he : Lim.actor e ≠ some t)
+    (hs : Limiter.step s e = some (s', o)) : s'.pc t = s.pc t :=
+  Lim.parked_undisturbed hp he hs
+
+/-- (b) free class (borrower not registered, queue empty, a token free): the first segment
+registers the borrower and suspends in `cancel_shielded_checkpoint`; not returned yet
+(`grants`, `holders` unchanged).  There is no fast mode. -/
+theorem C08_limiter_yields_first (s : Limiter.State) (t b : Nat) (hidle : s.pc t = .idle)
+    (hb : b ∉ s.borrowers) (hq : s.queue = [])
+    (hfree : Limiter.ltTot s.borrowers.length s.total = true) :
+    ∃ s1, Limiter.step s (.acquireOnBehalf t b false) = some (s1, .susp) ∧
+      s1.pc t = .fastYield ∧ s1.borrowers = b :: s.borrowers ∧ s1.grants = s.grants ∧
+      s1.holders = s.holders := by
+  refine ⟨{ s with borrowers := b :: s.borrowers, pc := upd s.pc t .fastYield,
+                   beh := upd s.beh t b, resv := (b, t) :: s.resv }, ?_, ?_, rfl, rfl, rfl⟩
+  · simp [Limiter.step, Limiter.acq, hidle, hb, hq, hfree]
+  · simp
+
+theorem C08_limiter_returns_in_later_step (s : Limiter.State) (t : Nat)
+    (hp : s.pc t = .fastYield ∨ s.pc t = .fastYieldMC)
+    (e : Limiter.Ev) (he : Lim.actor e = some t) (s' : Limiter.State) (o : Limiter.Out)
+    (hs : Limiter.step s e = some (s', o)) :
+    (e = .step t ∧ s.pc t = .fastYield ∧ o = .ret ∧ s'.grants = s.grants + 1 ∧
+        s'.borrowers = s.borrowers) ∨
+    (e = .mc t ∧ s.pc t = .fastYield ∧ o = .env) ∨
+    (e = .step t ∧ s.pc t = .fastYieldMC ∧ (o = .cancelled ∨ o = .runtimeError)) := by
+  rcases hp with hp | hp <;> cases e <;> simp [Lim.actor] at he <;>
+    (have he' := he.symm; subst he') <;>
+    simp [Limiter.step, Limiter.acq, Limiter.acqNowait, Limiter.rel, hp] at hs
+  · obtain ⟨rfl, rfl⟩ := hs; simp [hp]
+  · obtain ⟨rfl, rfl⟩ := hs; simp [hp]
+  · simp [hp]; split at hs <;> (cases hs; simp)
+
+theorem C08_limiter_nowait_synchronous (s s' : Limiter.State) (t b : Nat) (o : Limiter.Out)
+    (e : Limiter.Ev)
+    (he : e = .acquireNowait t ∨ e = .acquireOnBehalfNowait t b ∨ e = .release t ∨
+          e = .releaseOnBehalf t b)
+    (hs : Limiter.step s e = some (s', o)) : o ≠ .susp ∧ s.pc t = .idle := by
+  rcases he with rfl | rfl | rfl | rfl <;>
+    simp only [Limiter.step, Limiter.acqNowait, Limiter.rel] at hs <;> repeat' split at hs
+  all_goals first | contradiction | (cases hs; simp_all)
+
+/-! ## Event.wait on a set event  (cell `Event.wait[set]`; also what `TaskHandle.wait` /
+`await handle` / `Future.wait` on a finished object run: `self._finished_event.wait()`)
+
+Deviation from the scheme: `Event.wait` has no `checkpoint_if_cancelled`; on a set event it runs
+`checkpoint()` = one bare `sleep(0)`.  The model's `pre` flag is carried for protocol uniformity
+only and is ignored by the transition.  "Check before effect" is therefore trivial -- the
+operation has *no* effect on the event at any time -- and what is true is: the call always
+suspends first; a cancellation (already pending on entry or not) reaches the task as `mc` during
+that yield and the wake-up raises; otherwise the wake-up returns.  That the pending cancellation
+of a scope cancelled *before* the call lands before the wake-up is a fact about the loop's
+ordering of the delivery callback and the task step (kernel model, `C08_kernel_*`) and is probed
+on the real code. -/
+
+/-- (b) every state with the flag set, either value of `pre`: the first segment suspends in
+`checkpoint()`; flag, `_waiters` and every other task are untouched. -/
+theorem C08_event_wait_set_yields (s : Event.State) (t : Nat) (pre : Bool)
+    (hidle : s.pc t = .idle) (hset : s.flag = true) :
+    ∃ s1, Event.step s (.wait t pre) = some (s1, .susp) ∧ s1.pc t = .yielding ∧
+      Evt.SameBut t s s1 := by
+  refine ⟨{ s with pc := upd s.pc t .yielding }, ?_, ?_, ?_⟩
+  · simp [Event.step, hidle, hset]
+  · simp
+  · simp [Evt.SameBut]; intro u hu; simp [upd, hu]
+
+/-- the ways out of that yield: `step t` returns; or `mc t` and then `step t` raises
+`cancelled`; flag and `_waiters` are unchanged by each of them (nothing to undo), and `wait`,
+`fc` by `t` are not enabled. -/
+theorem C08_event_yielding_only_exit (s : Event.State) (t : Nat) (hp : Evt.Yielding t s)
+    (e : Event.Ev) (he : Evt.actor e = some t) (s' : Event.State) (o : Event.Out)
+    (hs : Event.step s e = some (s', o)) :
+    Evt.SameBut t s s' ∧
+    ((e = .step t ∧ s.pc t = .yielding ∧ o = .ret ∧ s'.pc t = .idle) ∨
+     (e = .mc t ∧ s.pc t = .yielding ∧ o = .env ∧ s'.pc t = .yieldingMC) ∨
+     (e = .step t ∧ s.pc t = .yieldingMC ∧ o = .cancelled ∧ s'.pc t = .idle)) := by
+  rcases hp with hp | hp <;> cases e <;> simp [Evt.actor] at he <;> subst he <;>
+    simp [Event.step, hp] at hs <;> (try obtain ⟨rfl, rfl⟩ := hs) <;>
+    simp [Evt.SameBut, hp] <;> (intro u hu; simp [upd, hu])
+
+/-- (a) as far as it applies: once `_must_cancel` is delivered during the yield, the wake-up
+raises and the event is as before. -/
+theorem C08_event_cancel_exit (s : Event.State) (t : Nat) (hp : s.pc t = .yielding) :
+    ∃ s1 s2, Event.step s (.mc t) = some (s1, .env) ∧
+      Event.step s1 (.step t) = some (s2, .cancelled) ∧ s2.pc t = .idle ∧ Evt.SameBut t s s2 := by
+  refine ⟨{ s with pc := upd s.pc t .yieldingMC },
+    { s with pc := upd (upd s.pc t .yieldingMC) t .idle }, ?_, ?_, ?_, ?_⟩
+  · simp [Event.step, hp]
+  · simp [Event.step]
+  · simp
+  · simp [Evt.SameBut]; intro u hu; simp [upd, hu]
+
+theorem C08_event_yielding_undisturbed {s s' : Event.State} {t : Nat}
+    (hp : Evt.Yielding t s) {e : Event.Ev} {o : Event.Out} (he : Evt.actor e ≠ some t)
+    (hs : Event.step s e = some (s', o)) : s'.pc t = s.pc t :=
+  Evt.yielding_undisturbed hp he hs
+
+/-- `set()` is synchronous. -/
+theorem C08_event_set_synchronous (s s' : Event.State) (o : Event.Out)
+    (hs : Event.step s .set = some (s', o)) : o = .ret := by
+  simp only [Event.step] at hs; split at hs <;> (cases hs; rfl)
+
+/-! ## Condition.acquire on a free lock, Condition.wait in a cancelled scope
+(cells `Condition.acquire[free]`, `Condition.wait[cancelled scope keeps the lock]`) -/
+
+/-- (a) `Condition.acquire` = `Lock.acquire` + `_owner_task = current`: entered cancelled on a
+free lock it suspends, the lock's fields, the condition's `_owner_task`/`_waiters` and all other
+tasks are unchanged, the task is parked in the Lock's `preSpin`. -/
+theorem C08_cond_acquire_check_before_effect (s : Condition.State) (t : Nat)
+    (hc : s.cpc t = .none) (hidle : s.lock.pc t = .idle)
+    (hfree : s.lock.owner = none ∧ s.lock.waiters = []) :
+    ∃ s1, Condition.step s (.acquire t true) = some (s1, .susp) ∧ s1.cpc t = .acq ∧
+      s1.lock.pc t = .preSpin ∧ Cond.SameBut t s s1 := by
+  refine ⟨{ s with lock := { s.lock with pc := upd s.lock.pc t .preSpin },
+                   cpc := upd s.cpc t .acq }, ?_, ?_, ?_, ?_⟩
+  · simp [Condition.step, hc, Lock.step, hidle, hfree, Condition.lockResult]
+  · simp
+  · simp
+  · simp [Cond.SameBut, Lock.SameBut]
+    constructor <;> (intro u hu; simp [upd, hu])
+
+/-- (a) while parked there (`cpc = acq`, Lock pc `preSpin`/`preSpinMC`) the events of `t` are the
+spinning `step t`, `mc t`, and the raising `step t`; none returns, all leave everything but
+`t`'s program counters unchanged. -/
+theorem C08_cond_acquire_parked_only_exit (s : Condition.State) (t : Nat)
+    (hc : s.cpc t = .acq) (hp : Lock.Parked t s.lock)
+    (e : Condition.Ev) (he : Cond.actor e = t) (s' : Condition.State) (o : Condition.Out)
+    (hs : Condition.step s e = some (s', o)) :
+    Cond.SameBut t s s' ∧
+    ((e = .step t ∧ s.lock.pc t = .preSpin ∧ o = .susp ∧ s'.lock = s.lock ∧ s'.cpc t = .acq) ∨
+     (e = .mc t ∧ s.lock.pc t = .preSpin ∧ o = .env ∧ s'.lock.pc t = .preSpinMC ∧ s'.cpc t = .acq) ∨
+     (e = .step t ∧ s.lock.pc t = .preSpinMC ∧ o = .cancelled ∧ s'.lock.pc t = .idle ∧
+        s'.cpc t = .none)) := by
+  rcases hp with hp | hp <;> cases e <;> simp [Cond.actor] at he <;> subst he <;>
+    simp [Condition.step, hc, Lock.step, hp, Condition.lockResult] at hs <;>
+    (try obtain ⟨rfl, rfl⟩ := hs) <;>
+    simp [Cond.SameBut, Lock.SameBut, hp, hc] <;>
+    (try constructor) <;> (try (intro u hu; simp [upd, hu]))
+
+/-- (a) `Condition.wait`, **every** state (in particular: the caller owns the lock): entered in a
+cancelled scope, `checkpoint_if_cancelled` (its first statement) suspends; the embedded lock is
+*identical* (still owned by whoever owned it), `_owner_task`, the waiter deque and the ghost
+counters are unchanged: no event queued, nothing released. -/
+theorem C08_cond_wait_check_before_effect (s : Condition.State) (t : Nat) (hc : s.cpc t = .none) :
+    ∃ s1, Condition.step s (.wait t true) = some (s1, .susp) ∧ s1.cpc t = .waitPre ∧
+      s1.lock = s.lock ∧ Cond.SameBut t s s1 := by
+  refine ⟨{ s with cpc := upd s.cpc t .waitPre }, ?_, ?_, rfl, ?_⟩
+  · simp [Condition.step, hc]
+  · simp
+  · simp [Cond.SameBut, Lock.SameBut.refl]; intro u hu; simp [upd, hu]
+
+/-- (a) ... and keeps the lock until it raises: parked in `waitPre`/`waitPreMC` the events of `t`
+are the spinning `step t` (identical state), `mc t`, and the `step t` that raises `cancelled`;
+each leaves the embedded lock identical, so a caller that owned the lock on entry
+(`ownerTask = some t`, `lock.owner = some t`, `lock.holds t`) still owns it when `wait()` raises. -/
+theorem C08_cond_wait_parked_keeps_lock (s : Condition.State) (t : Nat)
+    (hp : s.cpc t = .waitPre ∨ s.cpc t = .waitPreMC)
+    (e : Condition.Ev) (he : Cond.actor e = t) (s' : Condition.State) (o : Condition.Out)
+    (hs : Condition.step s e = some (s', o)) :
+    s'.lock = s.lock ∧ Cond.SameBut t s s' ∧
+    ((e = .step t ∧ s.cpc t = .waitPre ∧ o = .susp ∧ s' = s) ∨
+     (e = .mc t ∧ s.cpc t = .waitPre ∧ o = .env ∧ s'.cpc t = .waitPreMC) ∨
+     (e = .step t ∧ s.cpc t = .waitPreMC ∧ o = .cancelled ∧ s'.cpc t = .none)) := by
+  rcases hp with hp | hp <;> cases e <;> simp [Cond.actor] at he <;> subst he <;>
+    simp [Condition.step, hp] at hs <;> (try obtain ⟨rfl, rfl⟩ := hs) <;>
+    simp [Cond.SameBut, Lock.SameBut.refl, hp] <;> (intro u hu; simp [upd, hu])
+
+theorem C08_cond_wait_cancel_exit (s : Condition.State) (t : Nat) (hp : s.cpc t = .waitPre) :
+    ∃ s1 s2, Condition.step s (.mc t) = some (s1, .env) ∧
+      Condition.step s1 (.step t) = some (s2, .cancelled) ∧ s2.cpc t = .none ∧
+      s2.lock = s.lock ∧ s2.ownerTask = s.ownerTask ∧ s2.waiters = s.waiters := by
+  refine ⟨{ s with cpc := upd s.cpc t .waitPreMC },
+    { s with cpc := upd (upd s.cpc t .waitPreMC) t .none }, ?_, ?_, ?_, rfl, rfl, rfl⟩
+  · simp [Condition.step, hp]
+  · simp [Condition.step]
+  · simp
+
+/-- (b) `Condition.acquire`, free lock, `fast_acquire = False`: suspends in the Lock's shielded
+yield (lock taken, `_owner_task` not yet set: the call has not returned). -/
+theorem C08_cond_acquire_yields_first (s : Condition.State) (t : Nat)
+    (hc : s.cpc t = .none) (hidle : s.lock.pc t = .idle)
+    (hfree : s.lock.owner = none ∧ s.lock.waiters = []) (hfast : s.lock.fast = false) :
+    ∃ s1, Condition.step s (.acquire t false) = some (s1, .susp) ∧ s1.cpc t = .acq ∧
+      s1.lock.pc t = .fastYield ∧ s1.lock.owner = some t ∧ s1.ownerTask = s.ownerTask := by
+  refine ⟨{ s with lock := { s.lock with owner := some t, pc := upd s.lock.pc t .fastYield },
+                   cpc := upd s.cpc t .acq }, ?_, ?_, ?_, rfl, rfl⟩
+  · simp [Condition.step, hc, Lock.step, hidle, hfree, hfast, Condition.lockResult]
+  · simp
+  · simp
+
+/-- (b) ... and the `step t` that ends the yield is what returns and sets `_owner_task`. -/
+theorem C08_cond_acquire_returns_in_later_step (s : Condition.State) (t : Nat)
+    (hc : s.cpc t = .acq) (hp : s.lock.pc t = .fastYield) :
+    ∃ s2, Condition.step s (.step t) = some (s2, .ret) ∧ s2.ownerTask = some t ∧
+      s2.cpc t = .none ∧ s2.lock.owner = s.lock.owner ∧ s2.lock.holds t = true := by
+  refine ⟨{ s with lock := { s.lock with pc := upd s.lock.pc t .idle,
+                                         holds := upd s.lock.holds t true },
+                   ownerTask := some t, cpc := upd s.cpc t .none }, ?_, rfl, ?_, rfl, ?_⟩
+  · simp [Condition.step, hc, Lock.step, hp, Condition.lockResult]
+  · simp
+  · simp
+
+/-- exemption: with a `fast_acquire` lock, not cancelled, `Condition.acquire` returns at once. -/
+theorem C08_cond_fast_acquire_exempt (s : Condition.State) (t : Nat)
+    (hc : s.cpc t = .none) (hidle : s.lock.pc t = .idle)
+    (hfree : s.lock.owner = none ∧ s.lock.waiters = []) (hfast : s.lock.fast = true) :
+    ∃ s1, Condition.step s (.acquire t false) = some (s1, .ret) ∧ s1.ownerTask = some t ∧
+      s1.lock.owner = some t := by
+  refine ⟨{ s with lock := { s.lock with owner := some t, holds := upd s.lock.holds t true },
+                   ownerTask := some t, cpc := upd s.cpc t .none }, ?_, rfl, rfl⟩
+  simp [Condition.step, hc, Lock.step, hidle, hfree, hfast, Condition.lockResult]
+
+/-- exemption: `acquire_nowait`, `release`, `notify`, `notify_all` are synchronous. -/
+theorem C08_cond_nowait_synchronous (s s' : Condition.State) (t n : Nat) (o : Condition.Out)
+    (e : Condition.Ev)
+    (he : e = .acquireNowait t ∨ e = .release t ∨ e = .notify t n ∨ e = .notifyAll t)
+    (hs : Condition.step s e = some (s', o)) : o ≠ .susp := by
+  have hl : ∀ (e : Lock.Ev) l lo, (e = .acquireNowait t ∨ e = .release t) →
+      Lock.step s.lock e = some (l, lo) → lo ≠ .susp := by
+    intro e l lo he h
+    rcases he with rfl | rfl <;> simp only [Lock.step] at h <;> repeat' split at h
+    all_goals first | contradiction | (cases h; simp)
+  rcases he with rfl | rfl | rfl | rfl <;> simp only [Condition.step] at hs
+  · split at hs; · contradiction
+    cases h : Lock.step s.lock (.acquireNowait t) with
+    | none => simp [h, Condition.lockResult] at hs
+    | some p =>
+      obtain ⟨l, lo⟩ := p
+      have := hl _ l lo (Or.inl rfl) h
+      rw [h] at hs
+      cases lo <;> simp [Condition.lockResult] at hs <;> first | (exact absurd rfl this) | (rw [← hs.2]; simp)
+  · split at hs; · contradiction
+    cases h : Lock.step s.lock (.release t) with
+    | none => simp [h] at hs
+    | some p =>
+      obtain ⟨l, lo⟩ := p
+      have := hl _ l lo (Or.inr rfl) h
+      rw [h] at hs
+      cases lo <;> simp at hs <;> first | (exact absurd rfl this) | (rw [← hs.2]; simp)
+  · repeat' split at hs
+    all_goals first | contradiction | (cases hs; simp)
+  · repeat' split at hs
+    all_goals first | contradiction | (cases hs; simp)
+
+/-! ## Memory object stream: send / receive
+(cells `MemoryStream.send[buffer has room]`, `MemoryStream.send[receiver waiting]`,
+`MemoryStream.receive[item buffered]`, `MemoryStream.receive[sender waiting]`)
+
+`send`/`receive` start with `await checkpoint()` = `checkpoint_if_cancelled` +
+`cancel_shielded_checkpoint` *before* touching the queues; the model's first segment therefore
+never has an effect, in any state.  Deviation from the Lock scheme: a call entered with `pre`
+is parked in `sendChk h x true` / `recvChk h true`, where `step t` is *disabled* (no spinning
+self-loop is modelled) until `mc t` has been delivered. -/
+
+/-- (a) send, every state in which the call is enabled: entered cancelled, the first segment
+suspends and nothing observable changes (buffer, both waiting lists, counters, handles, the
+stream history); the item is only recorded as offered. -/
+theorem C08_mem_send_check_before_effect (s : Memory.State) (t h x : Nat)
+    (hidle : s.pc t = .idle) (hh : h < s.nS) (hx : Memory.isOffered s x = false) :
+    ∃ s1, Memory.step s (.send t h x true) = some (s1, .susp) ∧ s1.pc t = .sendChk h x true ∧
+      Mem.SameObs t s s1 := by
+  refine ⟨{ s with pc := upd s.pc t (.sendChk h x true), offered := s.offered ++ [(t, x)],
+                   loc := upd s.loc x (.chk t) }, ?_, ?_, ?_⟩
+  · simp [Memory.step, hidle, hh, hx]
+  · simp
+  · simp [Mem.SameObs]; intro u hu; simp [upd, hu]
+
+/-- (a) the only way out: parked, the events of `t` are `mc t` and then the wake-up `step t P`
+that raises `cancelled` and records the item as rejected; nothing observable changes, the item
+never enters the stream (`entered`, `buffer` unchanged), no event of `t` returns. -/
+theorem C08_mem_send_parked_only_exit (s : Memory.State) (t h x : Nat)
+    (hp : s.pc t = .sendChk h x true ∨ s.pc t = .sendChkMC x)
+    (e : Memory.Ev) (he : Mem.actor e = t) (s' : Memory.State) (o : Memory.Out)
+    (hs : Memory.step s e = some (s', o)) :
+    Mem.SameObs t s s' ∧
+    ((e = .mc t ∧ s.pc t = .sendChk h x true ∧ o = .env ∧ s'.pc t = .sendChkMC x) ∨
+     (∃ P, e = .step t P ∧ s.pc t = .sendChkMC x ∧ o = .cancelled ∧ s'.pc t = .idle ∧
+        s'.loc x = .rejected)) := by
+  rcases hp with hp | hp <;> cases e <;> simp [Mem.actor] at he <;> subst he <;>
+    simp [Memory.step, hp, Memory.reject] at hs <;> (try obtain ⟨rfl, rfl⟩ := hs) <;>
+    simp [Mem.SameObs, hp] <;> (intro u hu; simp [upd, hu])
+
+theorem C08_mem_send_cancel_exit (s : Memory.State) (t h x : Nat) (P : List Nat)
+    (hp : s.pc t = .sendChk h x true) :
+    Memory.step s (.step t P) = none ∧
+    ∃ s1 s2, Memory.step s (.mc t) = some (s1, .env) ∧
+      Memory.step s1 (.step t P) = some (s2, .cancelled) ∧ s2.pc t = .idle ∧
+      Mem.SameObs t s s2 := by
+  refine ⟨by simp [Memory.step, hp], { s with pc := upd s.pc t (.sendChkMC x) },
+    Memory.reject { s with pc := upd s.pc t (.sendChkMC x) } t x, ?_, ?_, ?_, ?_⟩
+  · simp [Memory.step, hp]
+  · simp [Memory.step]
+  · simp [Memory.reject]
+  · simp [Mem.SameObs, Memory.reject]; intro u hu; simp [upd, hu]
+
+/-- (b) send, **every** state, not cancelled: the first segment suspends (`checkpoint()`) before
+anything is touched. -/
+theorem C08_mem_send_yields_first (s : Memory.State) (t h x : Nat)
+    (hidle : s.pc t = .idle) (hh : h < s.nS) (hx : Memory.isOffered s x = false) :
+    ∃ s1, Memory.step s (.send t h x false) = some (s1, .susp) ∧ s1.pc t = .sendChk h x false ∧
+      Mem.SameObs t s s1 := by
+  refine ⟨{ s with pc := upd s.pc t (.sendChk h x false), offered := s.offered ++ [(t, x)],
+                   loc := upd s.loc x (.chk t) }, ?_, ?_, ?_⟩
+  · simp [Memory.step, hidle, hh, hx]
+  · simp
+  · simp [Mem.SameObs]; intro u hu; simp [upd, hu]
+
+/-- (b) in that checkpoint the only events of `t` are `mc t` and `step t P`: whatever `send`
+does or returns, it does in a later `step t`. -/
+theorem C08_mem_send_returns_in_later_step (s : Memory.State) (t h x : Nat)
+    (hp : s.pc t = .sendChk h x false)
+    (e : Memory.Ev) (he : Mem.actor e = t) (s' : Memory.State) (o : Memory.Out)
+    (hs : Memory.step s e = some (s', o)) : e = .mc t ∨ ∃ P, e = .step t P := by
+  cases e <;> simp [Mem.actor] at he <;> subst he <;> simp [Memory.step, hp] at hs <;> simp
+
+/-- (b) state class "buffer has room" (handle open, a receive end open, no receiver waiting):
+the second segment appends the item and returns. -/
+theorem C08_mem_send_room_returns (s : Memory.State) (t h x : Nat) (P : List Nat)
+    (hp : s.pc t = .sendChk h x false) (hopen : s.closedS h = false) (hr : s.openRecv ≠ 0)
+    (hw : s.waitingReceivers = []) (hfit : Memory.fits s.maxSize s.buffer.length = true) :
+    ∃ s2, Memory.step s (.step t P) = some (s2, .ret) ∧ s2.buffer = s.buffer ++ [x] ∧
+      s2.pc t = .idle := by
+  simp [Memory.step, hp, Memory.sendCore, hopen, hr, hw, Mem.scanR_nil, hfit]
+
+/-- (b) state class "receiver waiting" (first queued receiver live): the second segment hands
+the item to that receiver's slot, wakes it, and returns. -/
+theorem C08_mem_send_receiver_waiting_returns (s : Memory.State) (t h x u : Nat)
+    (rest P : List Nat)
+    (hp : s.pc t = .sendChk h x false) (hopen : s.closedS h = false) (hr : s.openRecv ≠ 0)
+    (hw : s.waitingReceivers = u :: rest) (hlive : s.pc u ≠ .recvWaitFC) (hP : u ∉ P)
+    (hut : u ≠ t) :
+    ∃ s2, Memory.step s (.step t P) = some (s2, .ret) ∧ s2.waitingReceivers = rest ∧
+      s2.pc u = .recvWoken (some x) ∧ s2.buffer = s.buffer ∧ s2.pc t = .idle := by
+  simp [Memory.step, hp, Memory.sendCore, hopen, hr, hw, Memory.scanR, hlive, hP, hut]
+
+/-- (a) receive, every state in which the call is enabled. -/
+theorem C08_mem_receive_check_before_effect (s : Memory.State) (t h : Nat)
+    (hidle : s.pc t = .idle) (hh : h < s.nR) :
+    ∃ s1, Memory.step s (.receive t h true) = some (s1, .susp) ∧ s1.pc t = .recvChk h true ∧
+      Mem.SameObs t s s1 ∧ s1.loc = s.loc := by
+  refine ⟨{ s with pc := upd s.pc t (.recvChk h true) }, ?_, ?_, ?_, rfl⟩
+  · simp [Memory.step, hidle, hh]
+  · simp
+  · simp [Mem.SameObs]; intro u hu; simp [upd, hu]
+
+/-- (a) the only way out for a parked `receive`: `mc t`, then the raising wake-up; nothing is
+consumed (buffer, waiting senders, every item's location unchanged). -/
+theorem C08_mem_receive_parked_only_exit (s : Memory.State) (t h : Nat)
+    (hp : s.pc t = .recvChk h true ∨ s.pc t = .recvChkMC)
+    (e : Memory.Ev) (he : Mem.actor e = t) (s' : Memory.State) (o : Memory.Out)
+    (hs : Memory.step s e = some (s', o)) :
+    Mem.SameObs t s s' ∧ s'.loc = s.loc ∧
+    ((e = .mc t ∧ s.pc t = .recvChk h true ∧ o = .env ∧ s'.pc t = .recvChkMC) ∨
+     (∃ P, e = .step t P ∧ s.pc t = .recvChkMC ∧ o = .cancelled ∧ s'.pc t = .idle)) := by
+  rcases hp with hp | hp <;> cases e <;> simp [Mem.actor] at he <;> subst he <;>
+    simp [Memory.step, hp] at hs <;> (try obtain ⟨rfl, rfl⟩ := hs) <;>
+    simp [Mem.SameObs, hp] <;> (intro u hu; simp [upd, hu])
+
+theorem C08_mem_receive_cancel_exit (s : Memory.State) (t h : Nat) (P : List Nat)
+    (hp : s.pc t = .recvChk h true) :
+    Memory.step s (.step t P) = none ∧
+    ∃ s1 s2, Memory.step s (.mc t) = some (s1, .env) ∧
+      Memory.step s1 (.step t P) = some (s2, .cancelled) ∧ s2.pc t = .idle ∧
+      Mem.SameObs t s s2 ∧ s2.loc = s.loc := by
+  refine ⟨by simp [Memory.step, hp], { s with pc := upd s.pc t .recvChkMC },
+    { s with pc := upd (upd s.pc t .recvChkMC) t .idle }, ?_, ?_, ?_, ?_, rfl⟩
+  · simp [Memory.step, hp]
+  · simp [Memory.step]
+  · simp
+  · simp [Mem.SameObs]; intro u hu; simp [upd, hu]
+
+/-- (b) receive, every state: the first segment suspends before anything is touched. -/
+theorem C08_mem_receive_yields_first (s : Memory.State) (t h : Nat)
+    (hidle : s.pc t = .idle) (hh : h < s.nR) :
+    ∃ s1, Memory.step s (.receive t h false) = some (s1, .susp) ∧ s1.pc t = .recvChk h false ∧
+      Mem.SameObs t s s1 ∧ s1.loc = s.loc := by
+  refine ⟨{ s with pc := upd s.pc t (.recvChk h false) }, ?_, ?_, ?_, rfl⟩
+  · simp [Memory.step, hidle, hh]
+  · simp
+  · simp [Mem.SameObs]; intro u hu; simp [upd, hu]
+
+theorem C08_mem_receive_returns_in_later_step (s : Memory.State) (t h : Nat)
+    (hp : s.pc t = .recvChk h false)
+    (e : Memory.Ev) (he : Mem.actor e = t) (s' : Memory.State) (o : Memory.Out)
+    (hs : Memory.step s e = some (s', o)) : e = .mc t ∨ ∃ P, e = .step t P := by
+  cases e <;> simp [Mem.actor] at he <;> subst he <;> simp [Memory.step, hp] at hs <;> simp
+
+/-- (b) state class "item buffered" (handle open, no sender queued): the second segment pops the
+head of the buffer and returns it. -/
+theorem C08_mem_receive_buffered_returns (s : Memory.State) (t h y : Nat) (ys P : List Nat)
+    (hp : s.pc t = .recvChk h false) (hopen : s.closedR h = false)
+    (hb : s.buffer = y :: ys) (hws : s.waitingSenders = []) :
+    ∃ s2, Memory.step s (.step t P) = some (s2, .item y) ∧ s2.buffer = ys ∧ s2.pc t = .idle := by
+  simp [Memory.step, hp, Memory.recvCore, hopen, Memory.pullSender, hws, hb]
+
+/-- (b) state class "sender waiting" (empty buffer, a sender queued): the second segment pulls
+the first queued sender's item through the buffer, wakes that sender and returns the item. -/
+theorem C08_mem_receive_sender_waiting_returns (s : Memory.State) (t h u x : Nat) (b : Bool)
+    (rest : List (Nat × Nat × Bool)) (P : List Nat)
+    (hp : s.pc t = .recvChk h false) (hopen : s.closedR h = false)
+    (hb : s.buffer = []) (hws : s.waitingSenders = (u, x, b) :: rest) (hut : u ≠ t) :
+    ∃ s2, Memory.step s (.step t P) = some (s2, .item x) ∧ s2.buffer = [] ∧
+      s2.waitingSenders = rest ∧ s2.pc u = Memory.wakeSender (s.pc u) ∧ s2.pc t = .idle := by
+  simp [Memory.step, hp, Memory.recvCore, hopen, Memory.pullSender, hws, hb, hut]
+
+/-- exemption: `send_nowait`, `receive_nowait`, `close` (= `aclose`) and `clone` are synchronous
+in every state. -/
+theorem C08_mem_nowait_close_synchronous (s s' : Memory.State) (t h x : Nat) (P : List Nat)
+    (o : Memory.Out) (e : Memory.Ev)
+    (he : e = .sendNowait t h x P ∨ e = .receiveNowait t h ∨ e = .closeS t h ∨ e = .closeR t h ∨
+          e = .cloneS t h ∨ e = .cloneR t h)
+    (hs : Memory.step s e = some (s', o)) : o ≠ .susp ∧ s.pc t = .idle := by
+  rcases he with rfl | rfl | rfl | rfl | rfl | rfl <;> simp only [Memory.step] at hs <;>
+    repeat' split at hs
+  all_goals first | contradiction | (cases hs; simp_all)
+
+/-! ## `functools.lru_cache` wrapper, hit path with `always_checkpoint=True`
+(no cell in harness/c08.py: the cache wrapper is not in C08's operation table; it is covered
+because its hit path is the one place where it decides about a checkpoint itself -- the miss
+path goes through `Lock.acquire`, see the Lock theorems)
+
+Deviation from the scheme, stated as it is in the code (functools.py:189-194): the hit is
+counted and the entry moved to the end *before* `await checkpoint()`, and there is no
+`checkpoint_if_cancelled`; `pre` plays no role on this path.  So "check before effect" does
+**not** hold for the statistics/LRU order: a hit entered in a cancelled scope raises at the
+checkpoint with `hits` already incremented (`C08_lru_hit_cancel_exit`).  What holds is
+"yields before returning". -/
+
+/-- (b) every state with a fresh completed entry for `k`, `always_checkpoint = True`, cached mode
+(`maxsize ≠ 0`), either value of `pre`: the first segment counts the hit and suspends in
+`checkpoint()`; the value is returned by a later `step c`. -/
+theorem C08_lru_hit_always_checkpoint_yields (s : Lru.State) (c k v : Nat) (e : Option Nat)
+    (pre : Bool) (hidle : s.pc c = .idle) (hmode : s.cfg.maxsize ≠ some 0) (hac : s.cfg.ac = true)
+    (hget : Lru.dget k s.dict = some (.value v e)) (hfresh : Lru.expired e s.now = false) :
+    ∃ s1, Lru.step s (.call c k pre) = some (s1, .susp) ∧ s1.pc c = .hitYield ∧
+      s1.hits = s.hits + 1 ∧ s1.misses = s.misses ∧
+      Lru.step s1 (.step c) = some ({ s1 with pc := upd s1.pc c .idle }, .ret v) := by
+  simp [Lru.step, hidle, hmode, Lru.lookupStep, hget, hfresh, Lru.moveToEnd?, hac]
+
+/-- the ways out of that checkpoint: `step c` returns the cached value; or `mc c`, then `step c`
+raises `cancelled`.  (`sc c`, the scope's `cancel_called` flag being set, is an environment event
+that changes only `creq c`.) -/
+theorem C08_lru_hit_returns_in_later_step (s : Lru.State) (c : Nat)
+    (hp : s.pc c = .hitYield ∨ s.pc c = .hitYieldMC) (s' : Lru.State) (o : Lru.Out) :
+    (∀ k pre, Lru.step s (.call c k pre) = none) ∧
+    (∀ v, Lru.step s (.wrappedReturns c v) = none) ∧ Lru.step s (.wrappedRaises c) = none ∧
+    Lru.step s (.fc c) = none ∧
+    (Lru.step s (.step c) = some (s', o) →
+      (s.pc c = .hitYield ∧ o = .ret (s.hv c) ∨ s.pc c = .hitYieldMC ∧ o = .cancelled) ∧
+      s'.hits = s.hits ∧ s'.dict = s.dict ∧ s'.pc c = .idle) ∧
+    (Lru.step s (.mc c) = some (s', o) →
+      s.pc c = .hitYield ∧ o = .env ∧ s'.pc c = .hitYieldMC ∧ s'.hits = s.hits ∧
+      s'.dict = s.dict) := by
+  rcases hp with hp | hp <;> simp [Lru.step, hp]
+  · constructor <;> (rintro rfl rfl; simp)
+  · rintro rfl rfl; simp
+
+/-- what is true instead of (a): the cancelled hit raises, and the hit stays counted. -/
+theorem C08_lru_hit_cancel_exit (s : Lru.State) (c : Nat) (hp : s.pc c = .hitYield) :
+    ∃ s1 s2, Lru.step s (.mc c) = some (s1, .env) ∧ Lru.step s1 (.step c) = some (s2, .cancelled) ∧
+      s2.pc c = .idle ∧ s2.hits = s.hits ∧ s2.dict = s.dict := by
+  refine ⟨{ s with pc := upd s.pc c .hitYieldMC },
+    { s with pc := upd (upd s.pc c .hitYieldMC) c .idle }, ?_, ?_, ?_, rfl, rfl⟩
+  · simp [Lru.step, hp]
+  · simp [Lru.step]
+  · simp
+
+/-- documented mode `always_checkpoint=False`: a hit returns at once, without a checkpoint. -/
+theorem C08_lru_hit_no_checkpoint_mode_returns_at_once (s : Lru.State) (c k v : Nat)
+    (e : Option Nat) (pre : Bool) (hidle : s.pc c = .idle) (hmode : s.cfg.maxsize ≠ some 0)
+    (hac : s.cfg.ac = false)
+    (hget : Lru.dget k s.dict = some (.value v e)) (hfresh : Lru.expired e s.now = false) :
+    ∃ s1, Lru.step s (.call c k pre) = some (s1, .ret v) ∧ s1.pc c = .idle ∧
+      s1.hits = s.hits + 1 := by
+  simp [Lru.step, hidle, hmode, Lru.lookupStep, hget, hfresh, Lru.moveToEnd?, hac]
+
+section KernelPart
+open AnyioModel.Kernel (State Ev Out Handle Lib TSt ExcVal Exc)
+
+/-! ## Kernel: sleep(0)/checkpoint, checkpoint_if_cancelled, cancel_shielded_checkpoint, sleep(d),
+empty task group exit, TaskHandle.wait on a finished task
+(cells `sleep(0)`, `sleep_until(past)`, `lowlevel.checkpoint`, `TaskGroup exit[no children]`,
+`TaskHandle.wait[finished]`, `await TaskHandle[finished]`)
+
+In the kernel model the cancellation of a scope is *delivered* (`_deliver_cancellation` sets
+`_must_cancel` on a suspended task, `hitTask`); a bare `yield` is where it lands.  The theorems
+below are step-local and hold in every state of the model.  That a scope which is already
+effectively cancelled when the task yields has its delivery callback scheduled, and that the
+callback runs before the task's next step, is the level-triggered delivery property C03
+(`C03_delivery_live`, `C03_deliver_hits`), not repeated here. -/
+
+/-- (b) `sleep(0)` = `checkpoint()` = a bare `yield`, every state in which a task runs user code:
+the task always suspends, its `__step` is scheduled for the next cycle, nobody is running. -/
+theorem C08_kernel_yield_suspends (st : State) (t : Nat) (hr : st.running = some t)
+    (hl : (st.tasks t).lib = .none) :
+    ∃ st1, Kernel.step st .yield = some (st1, .susp) ∧ st1.running = none ∧
+      (st1.tasks t).st = .yielded ∧ Handle.step t ∈ st1.ready ∧ st1.scopes = st.scopes ∧
+      st1.groups = st.groups ∧ st1.futs = st.futs := by
+  refine ⟨Kernel.doYield st t, ?_, rfl, ?_, ?_, rfl, rfl, rfl⟩
+  · simp [Kernel.step, hr, hl]
+  · simp [Kernel.doYield, State.setTask, State.schedule]
+  · simp [Kernel.doYield, State.setTask, State.schedule]
+
+/-- (a)/(b) how that yield ends: the resumption hands user code the cancellation exception iff
+`_must_cancel` was set while the task was suspended, and a normal resume otherwise; the operation
+has no effect of its own to undo. -/
+theorem C08_kernel_yield_resumes (st : State) (t : Nat) (hr : st.running = none)
+    (hc : Handle.step t ∈ st.cur) (hy : (st.tasks t).st = .yielded)
+    (hl : (st.tasks t).lib = .none) :
+    ∃ st1, Kernel.step st (.run (.step t)) =
+        some (st1, .resumed (if (st.tasks t).mustCancel
+          then .one (if (st.tasks t).mcAnyio then .cancelAnyio else .cancelNative) else .none)) ∧
+      st1.running = some t ∧ (st1.tasks t).st = .running ∧ (st1.tasks t).mustCancel = false := by
+  simp [Kernel.step, hr, hc, hy, Kernel.runTask, Kernel.continueLib, Kernel.resumeValue,
+    State.setTask, hl]
+
+/-- `checkpoint_if_cancelled` outside an effectively cancelled scope: returns at once, the state
+is *identical* (no suspension -- it is only the check, the yield of a full checkpoint comes from
+`cancel_shielded_checkpoint`). -/
+theorem C08_kernel_chkIf_not_cancelled_returns (st : State) (t : Nat) (hr : st.running = some t)
+    (hl : (st.tasks t).lib = .none)
+    (hs : ∀ s, (st.tasks t).scope = some s → Kernel.effCancelled st s = false) :
+    Kernel.step st .chkIfCancelled = some (st, .done .none) := by
+  simp only [Kernel.step, hr, hl]
+  cases h : (st.tasks t).scope with
+  | none => simp
+  | some s => simp [hs s h]
+
+/-- (a) `checkpoint_if_cancelled` inside an effectively cancelled scope: it does not return; the
+task suspends inside the library frame `chkIf`; scopes, groups and futures are untouched. -/
+theorem C08_kernel_chkIf_cancelled_parks (st : State) (t s : Nat) (hr : st.running = some t)
+    (hl : (st.tasks t).lib = .none) (hs : (st.tasks t).scope = some s)
+    (hc : Kernel.effCancelled st s = true) :
+    ∃ st1, Kernel.step st .chkIfCancelled = some (st1, .susp) ∧ st1.running = none ∧
+      (st1.tasks t).st = .yielded ∧ (st1.tasks t).lib = .chkIf ∧ st1.scopes = st.scopes ∧
+      st1.groups = st.groups ∧ st1.futs = st.futs := by
+  have h : Kernel.step st .chkIfCancelled = some (Kernel.doYield
+      (st.setTask t (fun x => { x with lib := .chkIf })) t, .susp) := by
+    simp only [Kernel.step, hr, hl, hs]; simp [hc]
+  exact ⟨_, h, by simp [Kernel.doYield, State.setTask, State.schedule]⟩
+
+/-- (a) the only way out of `chkIf`: a resumption without a pending cancellation yields again
+(same frame: spinning), one with `_must_cancel` set raises the cancellation exception and leaves
+the frame.  It never completes normally (`.done .none`). -/
+theorem C08_kernel_chkIf_spins_until_cancelled (st : State) (t : Nat) (hr : st.running = none)
+    (hc : Handle.step t ∈ st.cur) (hy : (st.tasks t).st = .yielded)
+    (hl : (st.tasks t).lib = .chkIf) :
+    ∃ st1 o, Kernel.step st (.run (.step t)) = some (st1, o) ∧
+      (((st.tasks t).mustCancel = false ∧ o = .susp ∧ (st1.tasks t).lib = .chkIf ∧
+          (st1.tasks t).st = .yielded ∧ st1.running = none) ∨
+       ((st.tasks t).mustCancel = true ∧
+          o = .done (.one (if (st.tasks t).mcAnyio then .cancelAnyio else .cancelNative)) ∧
+          (st1.tasks t).lib = .none ∧ st1.running = some t)) ∧
+      st1.scopes = st.scopes ∧ st1.groups = st.groups ∧ st1.futs = st.futs := by
+  cases hm : (st.tasks t).mustCancel <;>
+    simp [Kernel.step, hr, hc, hy, Kernel.runTask, Kernel.continueLib, Kernel.resumeValue,
+      State.setTask, hl, hm, Kernel.doYield, State.schedule] <;>
+    exact ⟨_, _, ⟨rfl, rfl⟩, by simp⟩
+
+/-- (b) `cancel_shielded_checkpoint`, every state: always suspends (inside a fresh shielded
+scope), whether or not anything is cancelled. -/
+theorem C08_kernel_shieldedChk_suspends (st : State) (t : Nat) (hr : st.running = some t)
+    (hl : (st.tasks t).lib = .none) :
+    ∃ st1, Kernel.step st .shieldedChk = some (st1, .susp) ∧ st1.running = none ∧
+      (st1.tasks t).st = .yielded ∧ (st1.tasks t).lib = .shChk st.nScopes ∧
+      Handle.step t ∈ st1.ready := by
+  obtain ⟨st0, h0⟩ := Ker.enterScope_new st t true none
+  have h : Kernel.step st .shieldedChk = some (Kernel.doYield
+      (st0.setTask t (fun x => { x with lib := .shChk st.nScopes })) t, .susp) := by
+    simp only [Kernel.step, hr, hl]
+    have : (Kernel.newScope st true none).2 = st.nScopes := rfl
+    simp [this, h0]
+  exact ⟨_, h, by simp [Kernel.doYield, State.setTask, State.schedule]⟩
+
+/-- (b) `sleep(d)` with `d > 0`: always suspends on a timer future.  (`sleep(0)` is the `yield`
+event; `.sleep 0` is not an event of the model.) -/
+theorem C08_kernel_sleep_suspends (st : State) (t d : Nat) (hr : st.running = some t)
+    (hl : (st.tasks t).lib = .none) (hd : d ≠ 0) :
+    (∃ st1, Kernel.step st (.sleep d) = some (st1, .susp) ∧ st1.running = none ∧
+      (st1.tasks t).lib = .sleeping st.nFuts) ∧ Kernel.step st (.sleep 0) = none := by
+  have h : ∃ X : State, Kernel.step st (.sleep d) = some (Kernel.blockOn X t st.nFuts, .susp) ∧
+      (X.tasks t).lib = .sleeping st.nFuts := by
+    simp only [Kernel.step, hr, hl]; simp [hd]
+    exact ⟨_, rfl, by simp [State.setTask, Kernel.newFut]⟩
+  obtain ⟨X, h1, h2⟩ := h
+  refine ⟨⟨_, h1, Ker.blockOn_running _ _ _, ?_⟩, ?_⟩
+  · rw [Ker.blockOn_lib]; exact h2
+  · simp [Kernel.step, hr]
+
+/-- (b) `TaskHandle.wait()` / `await handle` on a finished task: suspends once (the bare
+`sleep(0)` of `Event.wait` on a set event); nothing else changes. -/
+theorem C08_kernel_handleWait_finished_yields (st : State) (t u : Nat) (hr : st.running = some t)
+    (hl : (st.tasks t).lib = .none) (hh : (st.tasks u).hscope.isSome = true)
+    (hf : (st.tasks u).finished = true) :
+    ∃ st1, Kernel.step st (.handleWait u) = some (st1, .susp) ∧ st1 = Kernel.doYield st t ∧
+      st1.running = none ∧ (st1.tasks t).st = .yielded ∧ (st1.tasks t).lib = .none := by
+  refine ⟨Kernel.doYield st t, ?_, rfl, rfl, ?_, ?_⟩
+  · simp only [Kernel.step, hr, hl]; simp [hf]
+    intro h; simp [h] at hh
+  · simp [Kernel.doYield, State.setTask, State.schedule]
+  · simp [Kernel.doYield, State.setTask, State.schedule, hl]
+
+/-- (b) leaving a task group that has no children (any body outcome `ev`): `__aexit__` suspends in
+the shielded empty-group checkpoint `aexitChk`, i.e. the `async with` block yields at least once
+before it completes. -/
+theorem C08_kernel_empty_group_exit_yields (st : State) (t g : Nat) (ev : ExcVal)
+    (hr : st.running = some t) (hl : (st.tasks t).lib = .none) (hg : g < st.nGroups)
+    (he : (st.groups g).entered = true) (hx : (st.groups g).exited = false)
+    (hsc : (st.tasks t).scope = some (st.groups g).scope) (hempty : (st.groups g).tasks = []) :
+    ∃ st1 s, Kernel.step st (.aexit g ev) = some (st1, .susp) ∧ st1.running = none ∧
+      (st1.tasks t).st = .yielded ∧ (st1.tasks t).lib = .aexitChk g s ev ∧
+      (st1.groups g).tasks = [] ∧ (st1.groups g).exited = false := by
+  -- the state after the body's exception (if any) has been recorded
+  have key : ∀ st' : State, (st'.groups g).tasks = [] → (st'.groups g).exited = false →
+      ∃ st1 s, (if (st'.groups g).tasks = [] then
+          (match Kernel.enterScope (Kernel.newScope st' true none).1 t (Kernel.newScope st' true none).2 with
+            | none => none
+            | some st2 => some (Kernel.doYield (st2.setTask t
+                (fun x => { x with lib := .aexitChk g (Kernel.newScope st' true none).2 ev })) t, Out.susp))
+          else Kernel.aexitAfterChk st' t g ev) = some (st1, .susp) ∧ st1.running = none ∧
+        (st1.tasks t).st = .yielded ∧ (st1.tasks t).lib = .aexitChk g s ev ∧
+        (st1.groups g).tasks = [] ∧ (st1.groups g).exited = false := by
+    intro st' h1 h2
+    obtain ⟨st0, h0⟩ := Ker.enterScope_new st' t true none
+    have hs : (Kernel.newScope st' true none).2 = st'.nScopes := rfl
+    have hgr := (Ker.enterScope_frame h0).2.1
+    have hgr' : st0.groups = st'.groups := by rw [hgr]; rfl
+    refine ⟨Kernel.doYield (st0.setTask t
+      (fun x => { x with lib := .aexitChk g st'.nScopes ev })) t, st'.nScopes, ?_, ?_⟩
+    · rw [if_pos h1, hs, h0]
+    · simp [Kernel.doYield, State.setTask, State.schedule, hgr', h1, h2]
+  have hcs := (Kernel.cframe_cancelScope st (st.groups g).scope false).groups
+  simp only [Kernel.step, hr]
+  rw [if_neg (by simp [hl, he, hx, hsc]; omega)]
+  split
+  · split
+    · have h1 : ((Kernel.cancelScope st (st.groups g).scope false).groups g).tasks = [] := by
+        rw [hcs]; exact hempty
+      have k := key _ h1 (by rw [hcs]; exact hx)
+      first | exact k | (rw [if_pos h1] at k; rw [if_pos h1]; exact k)
+    · have h1 : ((State.setGroup (Kernel.cancelScope st (st.groups g).scope false) g (fun x =>
+          { x with exceptions := x.exceptions ++ ev.leaves, bodyErrs := ev.leaves })).groups g).tasks
+          = [] := by simp [State.setGroup, hcs, hempty]
+      have k := key _ h1 (by simp [State.setGroup, hcs, hx])
+      first | exact k | (rw [if_pos h1] at k; rw [if_pos h1]; exact k)
+  · have k := key _ hempty hx
+    first | exact k | (rw [if_pos hempty] at k; exact k)
+
+end KernelPart
+
+/-! ## anyio.itertools  (cells `itertools.<f><sync[...]>`, `itertools.<f><async-empty>`)
+
+Two schemas from `AnyioModel.Iter.Checkpoints`: the adaptor every synchronous source is wrapped
+in, and the `if not element_yielded: await checkpoint()` tail.  They are ∀-statements over all
+lists / all source traces.  That each of the 20 functions is an instance (keeps
+`element_yielded` correctly, or -- `combinations`, `permutations`, `product`, `repeat`, ... --
+places its own checkpoints) is **not** proved here; it is decided by the exhaustive probe matrix
+of `harness/c08.py` on the real code. -/
+section IterPart
+open AnyioModel.Iter.Checkpoints
+
+/-- a full traversal of any synchronous iterable (any list, `[]` included) through `_iterate`
+contains exactly, hence at least, `xs.length + 1` yields -- at least one --, hands over exactly
+the elements of the source and raises nothing. -/
+theorem C08_itertools_sync_source_traversal_yields {α : Type} (xs : List α) :
+    yields (traverse xs) = xs.length + 1 ∧ xs.length + 1 ≤ yields (traverse xs) ∧
+    1 ≤ yields (traverse xs) ∧ emits (traverse xs) = xs ∧ raises (traverse xs) = false :=
+  ⟨traverse_yields xs, (traverse_yields_ge xs).1, (traverse_yields_ge xs).2,
+   (traverse_emits xs).1, (traverse_emits xs).2⟩
+
+/-- each element is handed over only after the yield of its own `__anext__` call: the prefix of
+the traversal before the `n`-th `emit` (counting from 0) contains `n + 1` yields. -/
+theorem C08_itertools_sync_source_yield_before_each_element {α : Type} (xs : List α)
+    (pre suf : List (Mu α)) (x : α) (h : traverse xs = pre ++ .emit x :: suf) :
+    yields pre = (emits pre).length + 1 :=
+  traverse_yield_before_each_emit xs pre suf x h
+
+/-- with a cancelled scope the first micro-event of `__anext__` is the raising check: no yield,
+no element, the source untouched (`next(self.iterator)` is not reached), for every source. -/
+theorem C08_itertools_sync_source_cancelled_raises_first {α : Type} (xs : List α) :
+    anext true xs = ([.chk true], xs) ∧ traverseCancelledAt 0 xs = [.chk true] ∧
+    emits (traverseCancelledAt 0 xs) = [] ∧ raises (traverseCancelledAt 0 xs) = true :=
+  ⟨(anext_cancelled xs).1, (traverse_cancelled_at_entry xs).1, (traverse_cancelled_at_entry xs).2.1,
+   (traverse_cancelled_at_entry xs).2.2⟩
+
+/-- a scope cancelled before call `k ≤ xs.length`: exactly the first `k` elements were handed
+over, each after a yield, then the check raises; element `k` is not consumed. -/
+theorem C08_itertools_sync_source_cancelled_at {α : Type} (k : Nat) (xs : List α)
+    (hk : k ≤ xs.length) :
+    emits (traverseCancelledAt k xs) = xs.take k ∧ yields (traverseCancelledAt k xs) = k ∧
+    raises (traverseCancelledAt k xs) = true :=
+  traverse_cancelled_at k xs hk
+
+/-- tail schema: for any loop trace that handed over nothing, the tail adds a yield; the tail
+never changes what is handed over; so a complete traversal emitted an element or yielded. -/
+theorem C08_itertools_nothing_yielded_tail {β : Type} (body : List (Mu β)) :
+    emits (withTail body) = emits body ∧
+    (emits body = [] → yields (withTail body) = yields body + 1) ∧
+    (emits (withTail body) ≠ [] ∨ 1 ≤ yields (withTail body)) :=
+  ⟨(withTail_checkpoint body).1, (withTail_checkpoint body).2.1, withTail_emits_or_yields body⟩
+
+/-- a filtering/mapping consumer loop with that tail over an **arbitrary** source trace (also one
+without any yield, such as an empty async generator): if its traversal hands over nothing it
+contains a yield; over a synchronous source `xs` it contains at least `xs.length + 1` yields. -/
+theorem C08_itertools_consumer_checkpoints {α β : Type} (f : α → Option β) :
+    (∀ src : List (Mu α), emits (withTail (consume f src)) = [] →
+        1 ≤ yields (withTail (consume f src))) ∧
+    (∀ xs : List α, xs.length + 1 ≤ yields (withTail (consume f (traverse xs)))) :=
+  ⟨fun src h => consumer_nothing_emitted_yields f src h,
+   fun xs => consumer_over_sync_source_yields f xs⟩
+
+end IterPart
+
+/-! ## non-vacuity: the scripted runs of the harness cells, on the models -/
+
+-- Lock.acquire[free,fast=0]: cancelled probe (susp, spin, mc, cancelled) then yield probe
+example : (traceFrom Lock.step (Lock.init false)
+    [.acquire 0 true, .step 0, .mc 0, .step 0, .acquire 0 false, .step 0]).map (·.2) =
+    some [.susp, .susp, .env, .cancelled, .susp, .ret] := by decide
+-- Lock.acquire[free,fast=1]
+example : (traceFrom Lock.step (Lock.init true)
+    [.acquire 0 true, .mc 0, .step 0, .acquire 0 false]).map (·.2) =
+    some [.susp, .env, .cancelled, .ret] := by decide
+example : (traceFrom Semaphore.step (Semaphore.init false 2 none)
+    [.acquire 0 true, .mc 0, .step 0, .acquire 0 false, .step 0]).map (·.2) =
+    some [.susp, .env, .cancelled, .susp, .ret] := by decide
+example : (traceFrom Semaphore.step (Semaphore.init true 2 none)
+    [.acquire 0 true, .mc 0, .step 0, .acquire 0 false]).map (·.2) =
+    some [.susp, .env, .cancelled, .ret] := by decide
+example : (traceFrom Limiter.step (Limiter.init (some 2))
+    [.acquire 0 true, .mc 0, .step 0, .acquireOnBehalf 0 100 false, .step 0]).map (·.2) =
+    some [.susp, .env, .cancelled, .susp, .ret] := by decide
+example : (traceFrom Event.step Event.init
+    [.set, .wait 0 true, .mc 0, .step 0, .wait 0 false, .step 0]).map (·.2) =
+    some [.ret, .susp, .env, .cancelled, .susp, .ret] := by decide
+-- Condition.wait[cancelled scope keeps the lock]: the final `release` succeeds
+example : (traceFrom Condition.step (Condition.init false)
+    [.acquire 0 false, .step 0, .wait 0 true, .step 0, .mc 0, .step 0, .release 0]).map (·.2) =
+    some [.susp, .ret, .susp, .susp, .env, .cancelled, .ret] := by decide
+example : (traceFrom Memory.step (Memory.init (some 1))
+    [.send 0 0 1 true, .mc 0, .step 0 [], .send 0 0 2 false, .step 0 [],
+     .receive 0 0 true, .mc 0, .step 0 [], .receive 0 0 false, .step 0 []]).map (·.2) =
+    some [.susp, .env, .cancelled, .susp, .ret, .susp, .env, .cancelled, .susp, .item 2] := by
+  decide
+example : (traceFrom Lru.step (Lru.init { maxsize := none, ttl := none, ac := true })
+    [.call 0 5 false, .step 0, .wrappedReturns 0 9, .call 0 5 false, .step 0,
+     .call 0 5 true, .mc 0, .step 0]).map (·.2) =
+    some [.susp, .susp, .ret 9, .susp, .ret 9, .susp, .env, .cancelled] := by decide
+-- kernel: checkpoint_if_cancelled in a cancelled scope parks, the delivery lands, the wake-up raises
+example : (traceFrom Kernel.step Kernel.init
+    [.mkScope false none, .enter 0, .cancel 0, .chkIfCancelled, .beginCycle 0,
+     .run (.deliver 0), .run (.step 0)]).map (·.2) =
+    some [.id 0, .none, .none, .susp, .none, .none, .done (.one .cancelAnyio)] := by decide
+-- kernel: sleep(0) in a cancelled scope raises, outside it resumes normally
+example : (traceFrom Kernel.step Kernel.init
+    [.mkScope false none, .enter 0, .cancel 0, .yield, .beginCycle 0,
+     .run (.deliver 0), .run (.step 0)]).map (·.2) =
+    some [.id 0, .none, .none, .susp, .none, .none, .resumed (.one .cancelAnyio)] := by decide
+example : (traceFrom Kernel.step Kernel.init
+    [.yield, .beginCycle 0, .run (.step 0)]).map (·.2) =
+    some [.susp, .none, .resumed .none] := by decide
+-- kernel: TaskGroup exit[no children] yields once, then completes
+example : (traceFrom Kernel.step Kernel.init
+    [.mkGroup, .groupEnter 0, .aexit 0 .none, .beginCycle 0, .run (.step 0)]).map (·.2) =
+    some [.id 0, .none, .susp, .none, .done .none] := by decide
+-- the hypotheses of the ∀-theorems are satisfiable: instances on initial states
+example := C08_lock_check_before_effect (Lock.init false) 0 rfl ⟨rfl, rfl⟩
+example := C08_sem_yields_first (Semaphore.init false 1 none) 0 rfl ⟨by decide, rfl⟩ rfl
+example := C08_limiter_yields_first (Limiter.init (some 1)) 0 100 rfl (by decide) rfl (by decide)
+example := C08_cond_wait_check_before_effect (Condition.init false) 0 rfl
+example := C08_mem_send_check_before_effect (Memory.init (some 1)) 0 0 1 rfl (by decide) (by decide)
+example := C08_kernel_yield_suspends Kernel.init 0 rfl rfl
+example := C08_kernel_empty_group_exit_yields
+example := C08_itertools_sync_source_traversal_yields ([] : List Nat)
+
+end AnyioModel.Props.C08
